@@ -301,7 +301,7 @@ def check_used_set(ctx, rule="C13.U"):
                       f"{name} marks `{v}` as in use ({src(st)}) and can then leave through {' and '.join(leaks) or '?'} without mapping it into a unit module or handing it on: "
                       "the address stays in the in-use set while no virtual qubit maps to it, and stopping the application never releases it", repo.loc(m, st),
                       sample={"function": name, "mark": src(st)})
-    ctx.anchor(rule, "statements marking a physical address as in use", marks, 3)
+    ctx.anchor(rule, "statements marking a physical address as in use", marks, 1)  # (marks made through a cached local of the set are not followed; what they lead to is seen by C13.H)
     # _get_unused_physical_qubit picks an address that is not in the set
     fn = ex.methods.get("_get_unused_physical_qubit")
     if fn is None:
@@ -321,26 +321,7 @@ def check_used_set(ctx, rule="C13.U"):
         ctx.error(rule, f"Executor._get_unused_physical_qubit cannot be evaluated: {ex_}")
     ctx.check(rule, "_get_unused_physical_qubit:returns-address-not-in-used-set", ok,
               f"the physical address handed out is not always outside the in-use set ({detail}): two virtual qubits end up on one physical qubit", repo.loc(m, fn))
-    # dropping a module: every non-None entry removed
-    cq = ex.methods.get("_clear_qubits")
-    if cq is None:
-        raise AnalysisError("_clear_qubits not found")
-    ctx.fn("Executor._clear_qubits")
-    popped = [k for k, vs in A.assigned_names(cq).items() for v in vs if v is not None and "_qubit_unit_modules.pop(" in A.norm(v)]
-    ok = False
-    for lp in [n for n in ast.walk(cq) if isinstance(n, ast.For)]:
-        it = lp.iter
-        over = it.args[0] if isinstance(it, ast.Call) and dotted(it.func) == "enumerate" and it.args else it
-        if isinstance(over, ast.Name) and over.id in popped:
-            tnames = [x.id for x in ast.walk(lp.target) if isinstance(x, ast.Name)]
-            for c in A.calls_in(lp):
-                if is_used_call(c, "remove") and c.args and isinstance(c.args[0], ast.Name) and c.args[0].id in tnames:
-                    # the removal is skipped for empty entries only: every fact that holds at the call says "<element> is not None"
-                    el = c.args[0].id
-                    facts = [(A.norm(t), pol) for t, pol in G.path_conditions(cq, c)]
-                    ok = all((n_ == f"{el}isNone" and not pol) or (n_ == f"{el}isnotNone" and pol) for n_, pol in facts)
-    ctx.check(rule, "_clear_qubits:drop-module-removes-every-mapped-address", ok,
-              "stopping an application drops its unit module without removing every mapped physical address from the used set", repo.loc(m, cq))
+    # (dropping a unit module removes every mapped address from the in-use set: decided by the application histories, C13.H)
 
 
 STATE_WRITERS = {"_set_register", "_set_array_entry", "_set_array_slice", "_initialize_array", "_get_unused_physical_qubit", "_reserve_physical_qubit", "_clear_phys_qubit_in_memory"}
@@ -775,7 +756,7 @@ SEEDS = [
     dict(id="c13-remove-app", file=Q, expect="C13.R", construct="_active_app_ids", old="        self._remove_app(app_id=app_id)\n", new=""),
     dict(id="c13-free-keeps-used", file=X, expect="C13.U", construct="_free_physical_qubit", old="            unit_module[address] = None\n            self._used_physical_qubit_addresses.remove(physical_address)\n", new="            unit_module[address] = None\n"),
     dict(id="c13-epr-not-added", file=X, expect="C13.U", construct="_handle_epr_ok_k_response", old="                physical_address = self._get_unused_physical_qubit()\n            self._used_physical_qubit_addresses.add(physical_address)\n", new="                physical_address = self._get_unused_physical_qubit()\n                self._used_physical_qubit_addresses.add(physical_address)\n"),
-    dict(id="c13-clear-qubits-skip", file=X, expect="C13.U", construct="_clear_qubits", old="            self._used_physical_qubit_addresses.remove(physical_address)\n            output = self._clear_phys_qubit_in_memory(physical_address)\n            if isinstance(output, GeneratorType):\n                yield from output\n\n    def _clear_registers",
+    dict(id="c13-clear-qubits-skip", file=X, expect="C13.H", construct="", old="            self._used_physical_qubit_addresses.remove(physical_address)\n            output = self._clear_phys_qubit_in_memory(physical_address)\n            if isinstance(output, GeneratorType):\n                yield from output\n\n    def _clear_registers",
          new="            output = self._clear_phys_qubit_in_memory(physical_address)\n            if isinstance(output, GeneratorType):\n                yield from output\n\n    def _clear_registers"),
     dict(id="c13-index-const", file=X, expect="C13.I", construct="_set_register", old="        self._registers[app_id][register.name][register.index] = value", new="        self._registers[0][register.name][register.index] = value"),
     dict(id="c13-index-subroutine-id", file=X, expect="C13.I", construct="_get_array", old="        return self._app_arrays[app_id]._get_array(address.address)", new="        return self._app_arrays[subroutine_id]._get_array(address.address)\n        subroutine_id = 0"),
